@@ -205,6 +205,12 @@ func (g *game) Pass(playerIdx int) (*pokerface.GameState, error) {
 		return g.GetGameState(), err
 	}
 
+	// the backend silently ignores a pass that is not allowed; refuse it here so that it is
+	// neither reported as accepted nor re-published as a new game state
+	if !g.gs.HasAction(playerIdx, "pass") {
+		return g.GetGameState(), ErrGameInvalidAction
+	}
+
 	gs, err := g.backend.Pass(g.gs)
 	if err != nil {
 		return g.GetGameState(), err
